@@ -88,7 +88,7 @@ impl Prop for C05 {
 		"A scenario is a writer history over {serialize(value, presentation), serialize(blob), push_serialized(values pre-serialised by the real to_datum | by the reference encoder), finish_block} ended by into_inner | drop, \
 		 with per-run knobs codec x level x approx_block_size (0, 1, tiny, exact cumulative datum sizes +-1, 4 KiB, 64 KiB; blob scenarios put uncompressed block lengths on 8192k+-3 and compressed lengths across 32 KiB), \
 		 then the file is read back through the slice reader and several stream readers (Cursor, SimSource with Fixed(1), Fixed(k), cyclic plans, cuts inside block headers / compressed trailers / sync markers, BufReader capacities incl. 8191..8193). \
-		 An evaluation is one complete read of one file by one reader kind. Every scenario is non-trivial (a file is written and read under a refill schedule); distinct = distinct (codec, level class, block count, per-block (count bucket, uncompressed size class incl. 'within 3 of a multiple of 8192', compressed > 32 KiB), approx_block_size class, end action, reader kind class). One scenario in 250 is a LONG history (Op::Many): 250-1200 small values with a block per value / every few values / every few hundred, or 65 530-135 000 tiny values in ONE block, with string / bytes sizes following a pattern over the history (constant, growing, shrinking, sawtooth, small with a large one every 16 / 64 / 255 / 256 / 257 / 1024 values, 1-2 KiB incompressible each) and every k-th value pushed pre-serialized. One scenario in thirty uses a deliberately large-scale schema / value (counts, indices and lengths of two and three bytes, 62-300 fields / branches / symbols, lists 8-15 deep, fields around 8 KiB and 64 KiB); values are presented through the canonical serde calls or (per-node coin) through the other calls the crate documents as equivalent; every file of records is read once more through a target that leaves some fields to deserialize_ignored_any (what is kept must be what was written); the iterator adaptors are held to the size_hint contract."
+		 An evaluation is one complete read of one file by one reader kind. Every scenario is non-trivial (a file is written and read under a refill schedule); distinct = distinct (codec, level class, block count, per-block (count bucket, uncompressed size class incl. 'within 3 of a multiple of 8192', compressed > 32 KiB), approx_block_size class, end action, reader kind class). One file in eight is preceded by one or two EARLIER writers on the same SerializerConfig (other codec, level, block size; one in five of them fails to build because the sink refuses the header, one in five because its user metadata cannot be serialized, one in five meets a sink that refuses its first block and — in the lane built without debug assertions — stays broken while that writer is dropped). One scenario in 250 is a LONG history (Op::Many): 250-1200 small values with a block per value / every few values / every few hundred, or 65 530-135 000 tiny values in ONE block, with string / bytes sizes following a pattern over the history (constant, growing, shrinking, sawtooth, small with a large one every 16 / 64 / 255 / 256 / 257 / 1024 values, 1-2 KiB incompressible each) and every k-th value pushed pre-serialized. One scenario in thirty uses a deliberately large-scale schema / value (counts, indices and lengths of two and three bytes, 62-300 fields / branches / symbols, lists 8-15 deep, fields around 8 KiB and 64 KiB); values are presented through the canonical serde calls or (per-node coin) through the other calls the crate documents as equivalent; every file of records is read once more through a target that leaves some fields to deserialize_ignored_any (what is kept must be what was written); the iterator adaptors are held to the size_hint contract."
 	}
 	fn assumptions(&self) -> Vec<String> {
 		vec![
